@@ -241,6 +241,7 @@ def run(prop, tier, seed):
     rnd = random.Random(seed)
     rep = Report('special', __doc__.strip().split('\n')[1 if prop in ('C09', 'C19') else 4].strip() + ' distinct by the full case; non-trivial = the initial form parses / the operation is defined', bound='see rule')
     def do(key, fn, *args):
+        if not rep.mine(key): return
         try: msg, nt = fn(*args)
         except Exception: msg, nt = 'driver error: ' + traceback.format_exc()[-500:], True
         rep.case(key, nt, dict(case=[str(k) for k in key]) if rnd.random() < 0.001 else None)
